@@ -12,8 +12,11 @@ import (
 	"flag"
 	"fmt"
 	"os"
+	"os/exec"
+	"path/filepath"
 	"runtime/debug"
 	"sort"
+	"strings"
 
 	"fv/internal/core"
 	"fv/rules"
@@ -68,15 +71,107 @@ func check(prop, tier string) (code int) {
 		return 2
 	}
 	ctx := core.NewCtx(prop, tier)
-	func() {
+	run := func() {
 		defer func() {
 			if r := recover(); r != nil {
 				ctx.LoadError(fmt.Sprintf("checker panic: %v\n%s", r, debug.Stack()))
 			}
 		}()
 		f(ctx)
-	}()
+	}
+	rules.CurGOOS, rules.CurGOARCH = os.Getenv("FV_GOOS"), os.Getenv("FV_GOARCH")
+	run()
+	if tier == "thorough" && rules.CurGOARCH == "" {
+		// second build configuration: 32-bit int changes the overflow side
+		// conditions of the prover and covers build-tagged files; obligations
+		// are merged by key (worst status wins)
+		explanation := ctx.Explanation
+		rules.CurGOARCH = "386"
+		run()
+		rules.CurGOARCH = ""
+		ctx.Explanation = explanation + " Thorough tier: every rule over the Go runtime was decided under linux/amd64 and linux/386 and the seeded changes of this property were replayed against scratch copies (detection_selftest)."
+		selftest(ctx, prop)
+	}
 	return ctx.Finish()
+}
+
+// selftest replays the seeded changes stored for a property: each patch is
+// applied to a scratch copy of the analysed tree (outside /repo and /verif),
+// the property's quick check is run on the copy in a fresh process, and the
+// outcome is recorded in the evidence. It tests the checker, never frugal,
+// and has no influence on the verdict.
+func selftest(ctx *core.Ctx, prop string) {
+	dirs, _ := filepath.Glob(filepath.Join(ctx.VerifDir, "seeded", "*"))
+	sort.Strings(dirs)
+	self, _ := os.Executable()
+	for _, d := range dirs {
+		b, err := os.ReadFile(filepath.Join(d, "meta.json"))
+		if err != nil {
+			continue
+		}
+		var meta struct {
+			Property string   `json:"property"`
+			Also     []string `json:"also"`
+		}
+		if json.Unmarshal(b, &meta) != nil {
+			continue
+		}
+		applies := meta.Property == prop
+		for _, a := range meta.Also {
+			if a == prop {
+				applies = true
+			}
+		}
+		if !applies {
+			continue
+		}
+		seed := filepath.Base(d)
+		res := map[string]interface{}{"seed": seed, "seeded_for": meta.Property}
+		tmp, err := os.MkdirTemp("", "fvseed.")
+		if err != nil {
+			continue
+		}
+		func() {
+			defer os.RemoveAll(tmp)
+			repo := filepath.Join(tmp, "repo")
+			if out, err := exec.Command("rsync", "-a", "--exclude", ".git", ctx.RepoDir+"/", repo+"/").CombinedOutput(); err != nil {
+				res["error"] = "copy: " + string(out)
+				return
+			}
+			ap := exec.Command("git", "apply", filepath.Join(d, "patch.diff"))
+			ap.Dir = repo
+			if out, err := ap.CombinedOutput(); err != nil {
+				res["error"] = "patch does not apply: " + strings.TrimSpace(string(out))
+				return
+			}
+			sv := filepath.Join(tmp, "verif")
+			os.MkdirAll(sv, 0o755)
+			if kb, err := os.ReadFile(filepath.Join(ctx.VerifDir, "known_findings.json")); err == nil {
+				os.WriteFile(filepath.Join(sv, "known_findings.json"), kb, 0o644)
+			}
+			c := exec.Command(self, "check", "-prop", prop, "-tier", "quick")
+			c.Env = append(os.Environ(), "FV_REPO="+repo, "FV_VERIF="+sv)
+			out, _ := c.CombinedOutput()
+			code := c.ProcessState.ExitCode()
+			var rulesHit []string
+			seen := map[string]bool{}
+			for _, l := range strings.Split(string(out), "\n") {
+				l = strings.TrimSpace(l)
+				if strings.HasPrefix(l, "rule=") {
+					r := strings.Fields(l)[0]
+					if !seen[r] {
+						seen[r] = true
+						rulesHit = append(rulesHit, strings.TrimPrefix(r, "rule="))
+					}
+				}
+			}
+			res["exit"] = code
+			res["caught"] = code == 1
+			res["rules"] = rulesHit
+		}()
+		ctx.Selftests = append(ctx.Selftests, res)
+		fmt.Printf("SELFTEST: property=%s seed=%s caught=%v rules=%v\n", prop, seed, res["caught"], res["rules"])
+	}
 }
 
 func explain(path string) int {
